@@ -95,10 +95,27 @@ def min_ties(pts):
     return worst
 
 
+def tight_clusters(r, d):
+    """well-separated clusters whose internal scale is 2^-20 .. 2^-24 of the global scale (all coordinates dyadic, in
+    [-1, 1]): the calibrated beta is ~2^40 .. 2^48, i.e. the bisection needs 60-70 of its 200 passes"""
+    s = r.choice([20, 22, 24])
+    centres = distinct_points(r, r.range(2, 3), d, lambda: dy(r.range(-3, 3), -2))
+    pts = []
+    for c in centres:
+        for k in (0, 1, 3, 7):
+            off = [dy(k, -s)] + [dy(r.range(0, 1) * k, -s - 1) for _ in range(d - 1)]
+            pts.append(tuple(ci + oi for ci, oi in zip(c, off)))
+    return pts
+
+
 def c_gpd(r):
+    if r.chance(1, 4):
+        d = r.range(1, 2)
+        pts = tight_clusters(r, d)
+        return "gpd N=%d D=%d X=%s perp=%s" % (len(pts), d, fmts(flat(pts)), fmt(Fraction(2)))
     while True:
         n, d = r.range(3, 8), r.range(1, 3)
-        pts = distinct_points(r, n, d, lambda: dy(r.range(-16, 16), -3))
+        pts = distinct_points(r, n, d, lambda: dy(r.range(-16, 16), -4))
         perps = [p for p in (Fraction(3, 2), Fraction(2), Fraction(5, 2), Fraction(3), Fraction(4), Fraction(5))
                  if min_ties(pts) < p < len(pts) - 1]
         if perps:
@@ -108,13 +125,20 @@ def c_gpd(r):
 
 
 def c_gpk(r):
+    if r.chance(1, 4):
+        d = r.range(1, 2)
+        pts = tight_clusters(r, d)
+        return "gpk N=%d D=%d X=%s perp=%s K=%d rnd=%s" % (len(pts), d, fmts(flat(pts)), fmt(Fraction(2)), 6,
+                                                          ",".join(str(r.below(1 << 20)) for _ in range(8)))
     while True:
         d = r.choice([1, 1, 2])
         n = r.range(5, 14)
         if r.chance(1, 2):
-            pts = distinct_points(r, n, d, lambda: Fraction(r.range(-20, 20)))      # integer lattice: many distance ties
+            # a lattice (many distance ties), scaled into [-1, 1] as TSNE::run does (`X /= X.maxCoeff()`): outside that
+            # range exp(-beta*d) underflows below DBL_MIN for the betas small perplexities need
+            pts = distinct_points(r, n, d, lambda: dy(r.range(-20, 20), -5))
         else:
-            pts = distinct_points(r, n, d, lambda: dy(r.range(-40, 40), -3))
+            pts = distinct_points(r, n, d, lambda: dy(r.range(-40, 40), -6))
         n = len(pts)
         perps = [p for p in (Fraction(5, 4), Fraction(3, 2), Fraction(2), Fraction(5, 2), Fraction(3), Fraction(4))
                  if 3 * p <= n - 1 and p > min_ties(pts)]
@@ -257,7 +281,7 @@ def run_lines(ctx, binary, lines, timeout=300):
 
 
 def verdict(line, io, mo):
-    """-> (kind, signature, what) or None"""
+    """-> (kind, signature, what), a list of such (every failing oracle of the case), or None"""
     topic = line.split(" ", 1)[0]
     m = kv(mo)
     if io.startswith("abort:"):
@@ -272,10 +296,13 @@ def verdict(line, io, mo):
         if "wrong_parameter_error" in io and f.get("dim") != "2" and f.get("theta") != "0":
             return ("agree", "api:documented-error-for-non-2d-barnes-hut", "")
         return ("fail", "api:throws", "public API throws: " + io)
+    fails = []
     for key, sig, what in ORACLES.get(topic, []):
         v = m.get(key, "")
         if v.startswith("BAD"):
-            return ("fail", sig, what + ": " + v[:260])
+            fails.append(("fail", sig, what + ": " + v[:260]))
+    if fails:
+        return fails
     c = m.get("cmp", "")
     if c.startswith("BAD") or c.startswith("model-ERR") or mo.startswith("bad") or mo.startswith("ERR"):
         return ("broken", "corr:" + topic, "model and implementation disagree on %s: %s" % (topic, (c or mo)[:300]))
@@ -320,7 +347,8 @@ def shrink(ctx, binary, line, sig):
             return False
         impl, model = run_lines(ctx, binary, [l2], timeout=60)
         v = verdict(l2, impl[0], model[0])
-        return v is not None and v[0] != "agree" and v[1] == sig
+        vs = v if isinstance(v, list) else ([v] if v else [])
+        return any(x[0] != "agree" and x[1] == sig for x in vs)
     keep = vlib.ddmin(list(range(n)), failing, max_tests=80)
     return drop_points(line, keep) or line
 
@@ -348,28 +376,31 @@ def judge(ctx, binary, lines, label, do_shrink=True, timeout=300):
             if m.get("mknn", "").startswith("BAD"):
                 ctx.stat("vptree-model-also-misses-neighbour")
         v = verdict(line, io, mo)
-        if os.environ.get("C17_DEBUG") and v:
-            ctx.log("verdict", v[1], "\n    ", line[:4000], "\n    impl:", io[:300], "\n    model:", mo[:400])
-        if v is None:
+        vs = v if isinstance(v, list) else ([v] if v else [])
+        if os.environ.get("C17_DEBUG") and vs:
+            ctx.log("verdict", [x[1] for x in vs], "\n    ", line[:4000], "\n    impl:", io[:300], "\n    model:", mo[:400])
+        if not vs:
             if len(ctx.cov["samples"]) < 6 and topic not in [s.get("topic") for s in ctx.cov["samples"]]:
                 ctx.sample({"topic": topic, "case": line[:600], "impl": io[:400], "model": mo[:400]})
             continue
-        kind, sig, what = v
-        ctx.stat("verdict:" + sig)
-        if kind == "agree":
-            continue
-        if sig in seen or sig in ctx.extra.setdefault("_reported", []):
-            continue
-        seen.add(sig)
-        ctx.extra["_reported"].append(sig)
-        small = shrink(ctx, binary, line, sig) if (kind == "fail" and do_shrink) else line
-        i2, m2 = run_lines(ctx, binary, [small], timeout=120)
-        v2 = verdict(small, i2[0], m2[0]) or v
-        detail = {"impl": i2[0][:1500], "model": m2[0][:1500], "generator": label}
-        if kind == "fail":
-            ctx.fail(sig, v2[2], case=small, detail=detail)
-        else:
-            ctx.broken(sig, "correspondence c17_tsne (%s)" % topic, v2[2], case=small, detail=detail)
+        for kind, sig, what in vs:
+            ctx.stat("verdict:" + sig)
+            if kind == "agree":
+                continue
+            if sig in seen or sig in ctx.extra.setdefault("_reported", []):
+                continue
+            seen.add(sig)
+            ctx.extra["_reported"].append(sig)
+            small = shrink(ctx, binary, line, sig) if (kind == "fail" and do_shrink) else line
+            i2, m2 = run_lines(ctx, binary, [small], timeout=120)
+            v2 = verdict(small, i2[0], m2[0])
+            v2s = v2 if isinstance(v2, list) else ([v2] if v2 else [])
+            what2 = ([x[2] for x in v2s if x[1] == sig] or [what])[0]
+            detail = {"impl": i2[0][:1500], "model": m2[0][:1500], "generator": label}
+            if kind == "fail":
+                ctx.fail(sig, what2, case=small, detail=detail)
+            else:
+                ctx.broken(sig, "correspondence c17_tsne (%s)" % topic, what2, case=small, detail=detail)
 
 
 def corpus_lines():
@@ -408,16 +439,16 @@ def correspond(ctx):
     cl = corpus_lines()
     if cl:
         judge(ctx, binary, [l for l in cl if not l.startswith("api ")], "corpus", do_shrink=False)
-    plan = [("sqd", lambda: c_sqd(r.fork()), 60, 2000),
-            ("zm", lambda: c_zm(r.fork()), 30, 500),
-            ("sym", lambda: c_sym(r.fork()), 150, 8000),
-            ("vps", lambda: c_vps(r.fork(), big=not quick), 120, 6000),
-            ("gpd", lambda: c_gpd(r.fork()), 14, 300),
-            ("gpk", lambda: c_gpk(r.fork()), 14, 300),
-            ("exg", lambda: c_exg(r.fork(), fd=False), 40, 1500),
-            ("exg-fd", lambda: c_exg(r.fork(), fd=True), 6, 120),
-            ("bhg", lambda: c_bhg(r.fork()), 60, 3000),
-            ("bhg-dims", lambda: c_bhg(r.fork(), d=r.choice([1, 3])), 4, 40)]
+    plan = [("sqd", lambda: c_sqd(r.fork()), 120, 3000),
+            ("zm", lambda: c_zm(r.fork()), 40, 600),
+            ("sym", lambda: c_sym(r.fork()), 300, 10000),
+            ("vps", lambda: c_vps(r.fork(), big=not quick), 250, 8000),
+            ("gpd", lambda: c_gpd(r.fork()), 30, 500),
+            ("gpk", lambda: c_gpk(r.fork()), 30, 500),
+            ("exg", lambda: c_exg(r.fork(), fd=False), 80, 2500),
+            ("exg-fd", lambda: c_exg(r.fork(), fd=True), 10, 200),
+            ("bhg", lambda: c_bhg(r.fork()), 120, 5000),
+            ("bhg-dims", lambda: c_bhg(r.fork(), d=r.choice([1, 3])), 6, 60)]
     for name, gen, nq, nt in plan:
         ctx.log("stage", name)
         lines = [gen() for _ in range(nq if quick else nt)]
